@@ -17,6 +17,8 @@ class WireC11(L.WirePart):
     Model side: the Lean reader's verdict on the same bytes (smallest accepted prefix = image size; for a prefix the
     implementation accepts: same content; corrupted images: verdict recorded, not compared)."""
 
+    full_content_only = False      # stored legacy images: the model re-encodes in its own version, only the content is compared
+
     def __init__(self):
         self.stats = dict(images=0, prefixes=0, prefix_events=0, corrupt_cases=0, corrupt_events=0,
                           corrupt_verdict_agree=0, corrupt_verdict_differ=0, images_not_exhaustive=0, prefixes_skipped_after_96_aborts=0)
@@ -70,6 +72,8 @@ class WireC11(L.WirePart):
         for i, (line, exp, tag) in enumerate(plan):
             got = model_out[i] if i < len(model_out) else "<missing>"
             if tag == "full":
+                if self.full_content_only:
+                    got, exp = got.split(" | ")[0], exp.split(" | ")[0]
                 if core.norm(got) != core.norm(exp):
                     return i
             elif tag == "prefix-accept":
@@ -90,7 +94,7 @@ class WireC11(L.WirePart):
             w = op.split()
             if o.strip() in ("no-such-object", "bad-op"):
                 continue      # malformed history (dangling object id, e.g. after delta debugging): says nothing about the library
-            if w[0] == "trunc":
+            if w[0] in ("trunc", "truncimg"):
                 d = L.parse_trunc(o)
                 if d is None:
                     bad.append(("%s/trunc/bad-observation" % self.name, o[:200], i))
@@ -107,7 +111,7 @@ class WireC11(L.WirePart):
                         # no padding in these families: an accepted strict prefix is a violation in itself
                         key = "%s/%s/prefix/%s/%s" % (L.key_family(d["kind"], ln < npre, img), path, cls, L.region(ln, npre))
                         bad.append((key, "%s image of %d bytes truncated to %d: %s on the %s path (image %s)" % (d["kind"], len(img), ln, oc[:100], path, d["hex"][:96]), i))
-            elif w[0] == "corrupt":
+            elif w[0] in ("corrupt", "corruptimg"):
                 d = L.parse_corrupt(o)
                 if d is None:
                     bad.append(("%s/corrupt/bad-observation" % self.name, o[:200], i))
@@ -170,7 +174,38 @@ class AodPart(WireC11):
     nhist = (3, 20)
 
 
-PARTS = [ThetaPart(), TuplePart(), AodPart()]
+class StoredPart(WireC11):
+    """the same sweeps over images this tree does not write: theta serial versions 1 and 2 and the legacy tuple formats (made by the
+    Lean legacy encoders from random contents) and the shipped .sk reference files up to 2000 bytes.  Each older format is read by
+    code of its own that no image written by the current tree reaches."""
+    name = "stored"
+    fams = ("theta", "tf64", "ti64", "tstr", "tcst")
+    full_content_only = True
+
+    def generate(self, rng, tier):
+        from . import c10_theta
+        lines = []
+        try:
+            for h in c10_theta.legacy_histories(rng, "quick")[:(1 if tier == "quick" else 6)]:
+                lines += [l for l in h if "model-encoder-failed" not in l]
+        except Exception:
+            pass
+        for k, seed, hx, nv, content, src in c10_theta.corpus_lines():
+            if src.endswith(".sk") and len(hx) <= 4000:
+                lines.append("deser %s %s %s %s %s # %s" % (c10_theta.fam_of_kind(k), k, seed, hx, nv, content))
+        seen, hs = set(), []
+        for l in lines:
+            w = l.split(" # ")[0].split()
+            key = (w[2], len(w[4]), w[4][:16])       # one image per (kind, size, preamble)
+            if key in seen or len(w[4]) > 4000:
+                continue
+            seen.add(key)
+            arg = " ".join(w[1:6])
+            hs.append(["truncimg " + arg, "corruptimg " + arg])
+        return hs[:(24 if tier == "quick" else 200)]
+
+
+PARTS = [ThetaPart(), TuplePart(), AodPart(), StoredPart()]
 
 CLAIM_TEXT = ("Theta/Tuple/array-of-doubles images: kernel-checked theorems that the specification reader (all serial versions) is "
               "prefix-safe, rejects every strict prefix of every well-formed image and never returns more entries than 8 per consumed "
